@@ -34,6 +34,7 @@ STEPS = [
     ("ext_mapv", ".extend({'m': 'g.mapv({1: 10, 2: 20}, 0)', 'q': 'g.is_in([1, 2])'})", "extend"),
     ("ext_num", ".extend({'a': 'x.abs()', 's': 'x.sign()', 'f': 'x.floor()', 'p': 'x ** 2'})", "extend"),
     ("ext_cmp", ".extend({'b': 'x > y'})", "extend"),
+    ("ext_rekey", ".extend({'y': '-y', 'g': 'g - g'})", "extend"),
     ("win_cumsum", ".extend({'c': 'x.cumsum()'}, partition_by=['g'], order_by=['y'])", "window"),
     ("win_rownum", ".extend({'r': '_row_number()', 's': 'x.shift()'}, partition_by=['g'], order_by=['y', 'x'], reverse=['x'])", "window"),
     ("win_sum", ".extend({'t': 'x.sum()', 'n': '_size()'}, partition_by=['g'])", "window"),
@@ -50,6 +51,8 @@ STEPS = [
     ("sel_null", ".select_rows('x.is_null() or (y <= 0)')", "select_rows"),
     ("cols_sel", ".select_columns(['g', 'x'])", "select_columns"),
     ("cols_drop", ".drop_columns(['y'])", "drop_columns"),
+    ("cols_key", ".select_columns(['g'])", "select_columns"),
+    ("cols_dropx", ".drop_columns(['x'])", "drop_columns"),
     ("cols_ren", ".rename_columns({'x2': 'x'})", "rename_columns"),
     ("cols_swap", ".map_columns({'x': 'y', 'y': 'x'})", "map_columns"),
     ("ord_x", ".order_rows(['x'])", "order_rows"),
